@@ -16,7 +16,14 @@ RULE = ('histories: typed random walk (8-14 steps after set-up) over the public 
         'squeeze, extend, concatenate(copy=…), ibinary_blockwise, isort_qdata, and the leg functions '
         'conj/flip_charges_qconj/sort/bunch/project/extend/copy/LegPipe/to_LegCharge — on tensors built from a shared '
         'pool of 3 legs (0-2 charges, mod 1..5, blocked / duplicated / arbitrary order); EVERY intermediate object stays '
-        'alive and is re-observed after each step. Each history runs under both kernel configurations (fresh compiled '
+        'alive and is re-observed after each step; after a reshaping/slicing/copying function (split_legs, combine_legs, '
+        'add_trivial_leg, take_slice, a[...], squeeze, transpose, sort_legcharge, conj, astype, concatenate, tensordot, ...) '
+        'the next step is with probability 0.6 an in-place method that writes into existing containers of the RESULT '
+        '(element/slice assignment, *=, +=, itranspose, iproject) while the operands stay alive; combine_legs immediately '
+        'followed by split_legs occurs regularly; 27% of the histories have no charge / one sector per leg (single-block '
+        'fast paths). In-place steps are judged against the DOCUMENTED sharing (the model heap), and whenever a new result '
+        'shares more state with an older tensor than the model documents, an aliasing probe replays the history up to that '
+        'step and modifies result and operand in place on the real objects. Each history runs under both kernel configurations (fresh compiled '
         'build, TENPY_NO_CYTHON=1) and through the Lean heap model with the kernel flag. Plus MPS/MPO scenarios. '
         'A history is non-trivial when it contains an in-place step, a shallow copy or view, and >= 3 live tensors; '
         'distinct by content hash.')
@@ -33,9 +40,15 @@ ASSUMPTIONS = ['numpy views report their owner through .base', 'integer-valued e
 
 def gen_case(rng, idx):
     mods = npcgen.gen_mods(rng, max_q=2)
+    u = rng.random()
+    max_blocks = 3
+    if u < 0.12:
+        mods, max_blocks = [], 1          # no conserved charge: every tensor has a single block
+    elif u < 0.27:
+        max_blocks = 1                    # one charge sector per leg: single-block fast paths (split_legs, combine_legs, tensordot)
     legs = []
     for _ in range(3):
-        d = npcgen.gen_leg(rng, mods, max_blocks=3, max_size=2, allow_empty=False)
+        d = npcgen.gen_leg(rng, mods, max_blocks=max_blocks, max_size=3 if max_blocks == 1 else 2, allow_empty=False)
         legs.append(d)
     return dict(kind='hist', seed=rng.randrange(1 << 30), nsteps=rng.choice([8, 10, 12, 14]), legs=legs, narr=2)
 
@@ -77,6 +90,26 @@ def canon(fps):
 def canon_model(fps):
     """model addresses are tagged 5*ref+store: bufs 0, lbufs 1, lists 2, legs 3 — same traversal"""
     return canon(fps)
+
+
+KINDS = ('legs_list', 'labels', 'data', 'qdata', 'qtotal')
+
+
+def mut(x):
+    return {x[k] for k in KINDS} | set(x['blocks'])
+
+
+def excess_sharing(real_step, model_step, n_before):
+    """(new tensor j, older tensor i) pairs for which the real objects share mutable state although the model documents
+    none, together with the older tensors that ARE documented to share with j"""
+    out = []
+    ra, ma = real_step['arrs'], model_step['arrs']
+    for j in range(n_before, min(len(ra), len(ma))):
+        doc = [i for i in range(len(ma)) if i != j and (mut(ma[i]) & mut(ma[j]))]
+        exc = [i for i in range(len(ra)) if i != j and i not in doc and (mut(ra[i]) & mut(ra[j]))]
+        if exc:
+            out.append(dict(new=j, documented=doc, excess=exc))
+    return out
 
 
 def first_diff(a, b, path=''):
@@ -133,6 +166,7 @@ def _bisect(cases, cfg):
 
 def evaluate(ctx, cases, use_model=True, configs=('cy', 'py')):
     res = core.Result()
+    probes = []
     runs = safe_run(cases, configs, 8 if ctx.quick else 14)
     lines, where = [], []
     if use_model:
@@ -188,6 +222,21 @@ def evaluate(ctx, cases, use_model=True, configs=('cy', 'py')):
                 for a_r, a_m in zip(st_r['arrs'], st_m['arrs']):
                     if a_r.get('keys') is None:
                         a_m['keys'] = None
+            # in-place steps judged with the DOCUMENTED sharing (the model's heap before the step): a tensor that changed
+            # although the model shares nothing between it and the target was reached through an undocumented alias
+            # (the worker's own oracle uses the sharing of the real objects and would excuse it)
+            for st, (tgt, chg) in enumerate(zip(r.get('targets', []), r.get('changed', []))):
+                if tgt is None or st == 0 or st - 1 >= len(model_c):
+                    continue
+                ma = model_c[st - 1]['arrs']
+                for k in chg:
+                    if k != tgt and k < len(ma) and tgt < len(ma) and not (mut(ma[k]) & mut(ma[tgt])):
+                        op = r['ops'][st]
+                        res.fail('property', f'c03.{op}.changed-tensor-without-documented-sharing',
+                                 f'[{cfg}] step {st}: in-place {op} on tensor #{tgt} changed tensor #{k}; according to the '
+                                 'heap model (documented copies/views) the two share no mutable state',
+                                 dict(case, stop_after_op=st))
+                        break
             if real_c != model_c:
                 k = next((s for s, (x, y) in enumerate(zip(real_c, model_c)) if x != y), min(len(real_c), len(model_c)))
                 op = r['ops'][k] if k < len(r['ops']) else '?'
@@ -195,6 +244,24 @@ def evaluate(ctx, cases, use_model=True, configs=('cy', 'py')):
                          f'[{cfg}] step {k} ({op}): real vs model ' + first_diff(real_c[k] if k < len(real_c) else None,
                                                                                    model_c[k] if k < len(model_c) else None),
                          case)
+                # more sharing than documented between a new result and an older tensor: aliasing probe on the real objects
+                if k < len(real_c) and k < len(model_c) and (r.get('targets') or [None] * (k + 1))[k] is None:
+                    n_before = len(real_c[k - 1]['arrs']) if k > 0 else 0
+                    for ex in excess_sharing(real_c[k], model_c[k], n_before)[:1]:
+                        if len(probes) < 60:
+                            probes.append((cfg, dict(case, stop_after_op=k, probe=ex)))
+    # second pass: replay the histories with undocumented sharing up to that step and probe the real objects
+    for cfg in configs:
+        pc = [c for g, c in probes if g == cfg]
+        if not pc:
+            continue
+        pr = safe_run(pc, (cfg,), min(8, len(pc)))[cfg]['results']
+        for c, r in zip(pc, pr):
+            res.extra['aliasing_probes'] = res.extra.get('aliasing_probes', 0) + 1
+            for sig, detail in r.get('oracle', []):
+                if 'aliases' in sig:
+                    res.fail('property', sig, f'[{cfg}] {detail}', c)
+                    break
     return res
 
 
